@@ -1,7 +1,10 @@
 def get(pid):
-    from . import checks_net, checks_p, checks_api
+    from . import checks_net, checks_p, checks_api, checks_val
 
     table = {
+        "C01": checks_val.C01,
+        "C08": checks_val.C08,
+        "C10": checks_val.C10,
         "C02": checks_net.C02,
         "C03": checks_net.C03,
         "C04net": checks_net.C04net,
